@@ -121,3 +121,11 @@ claim("C13",
       "month/weekday tables equal the default-locale writer tables. The round trip for concrete values, white space and letter case are not decided.",
       "Trusted: specs/tables/strftime_spec.py pairing table; analysis/sym.py.",
       "DESIGN.md 5/C13, appendix A.1")
+claim("C14",
+      "must-read analysis over every Ok path (type-based read sets on MIR places with closure summaries), acceptance boxes of the setters, setter->field map, interval abstract interpretation of parsed.rs",
+      "Decides: no control-flow path of to_naive_date returns Ok without having consulted each of the 14 date fields (so a verifier cannot silently skip a supplied "
+      "field), likewise the time fields in to_naive_time and timestamp/offset in the date-time resolvers; each setter accepts exactly its documented range and stores "
+      "into the field(s) it is named after through set_if_consistent (equal value kept, different value rejected); the 1970-2069 pivot constants; no arithmetic, cast or "
+      "unwrap in parsed.rs can trap whatever values the public fields hold. That resolution succeeds exactly on the documented combinations and the error classification are not decided.",
+      "Trusted: analysis/sym.py path enumeration; read sets are syntactic (a field read but ignored is not detected); analysis/abs*.py; specs/justifications.txt.",
+      "DESIGN.md 5/C14")
